@@ -426,11 +426,15 @@ def coqchk(ctx: Ctx):
     for d in dirs:
         cmd += ['-Q', d, 'Falcon.' + d]
     cmd.append('Falcon.%s.Props' % ctx.prop)
-    code, out = _run(cmd, cwd=COQ, timeout=3000)
+    # under the build lock: no concurrent make may rewrite a .vo while it is being re-checked
+    with BuildLock():
+        code, out = _run(cmd, cwd=COQ, timeout=3000)
+        if code != 0 and not out.strip():   # killed without output (e.g. memory pressure): once more
+            code, out = _run(cmd, cwd=COQ, timeout=3000)
     summary = out[out.find('CONTEXT SUMMARY'):] if 'CONTEXT SUMMARY' in out else out[-1500:]
     ctx.cov['coqchk'] = {'cmd': ' '.join(cmd), 'exit': code, 'summary': summary.strip()[:3000]}
     if code != 0:
-        ctx.proof_broken = (ctx.proof_broken or '') + '\ncoqchk failed: ' + out[-1500:]
+        ctx.proof_broken = (ctx.proof_broken or '') + '\ncoqchk failed (exit %s): ' % code + out[-1500:]
     else:
         bad = [k for k in ('type-in-type', 'unsafe (co)fixpoints', 'positivity is assumed')
                if not re.search(re.escape(k) + r':\s*<none>', summary)]
